@@ -169,13 +169,20 @@ func (c *ChunkBuffer) ChunkedString(level, offset int) string {
 		// prefix operator
 		case Prefix:
 			if next := c.nextChunk(); next != nil {
+				// prefixed group expression like !(a && b): print the whole group after the operator
+				if next.Type == Group {
+					if inner := c.nextChunk(); inner != nil {
+						buf.WriteString(c.chunkGroupOperator(state, chunk.buffer, inner))
+					}
+					continue
+				}
 				buf.WriteString(c.chunkString(state, chunk.buffer+next.buffer))
 			}
 		// group operator
 		case Group:
 			// If group operator, inside expressions should be printed on the same line
 			if next := c.nextChunk(); next != nil {
-				buf.WriteString(c.chunkGroupOperator(state, next))
+				buf.WriteString(c.chunkGroupOperator(state, "", next))
 			}
 		// infix operator
 		case Infix:
@@ -234,6 +241,11 @@ OUT:
 		}
 		break
 	}
+	// Only a plain token can be combined: a group or a prefixed expression on the right side
+	// has its own chunks and must be printed by the main loop
+	if peek.Type != Token {
+		return ""
+	}
 	// Finally, add token buffer
 	expr.WriteString(" " + peek.buffer)
 
@@ -272,13 +284,18 @@ func (c *ChunkBuffer) chunkLineComment(state *ChunkState, chunk *Chunk) string {
 }
 
 // chunkGroupOperator() returns chunk group expression string
-func (c *ChunkBuffer) chunkGroupOperator(state *ChunkState, chunk *Chunk) string {
+func (c *ChunkBuffer) chunkGroupOperator(state *ChunkState, prefix string, chunk *Chunk) string {
 	expr := chunk.buffer
+	// depth counts the nested groups opened inside this group
+	depth := 0
+	if chunk.Type == Group && chunk.buffer == "(" {
+		depth++
+	}
 
 	for {
 		next := c.nextChunk()
 		if next == nil {
-			return c.chunkString(state, "("+expr+")")
+			return c.chunkString(state, prefix+"("+expr+")")
 		}
 
 		switch {
@@ -286,8 +303,24 @@ func (c *ChunkBuffer) chunkGroupOperator(state *ChunkState, chunk *Chunk) string
 			expr += next.buffer
 			expr += c.nextLine(state)
 			state.reset()
-		case next.buffer == ")":
-			return c.chunkString(state, "("+expr+")")
+		case next.Type == Group && next.buffer == "(":
+			depth++
+			expr += " " + next.buffer
+		case next.Type == Group && next.buffer == ")":
+			if depth == 0 {
+				return c.chunkString(state, prefix+"("+expr+")")
+			}
+			depth--
+			expr += next.buffer
+		case next.Type == Prefix:
+			// keep the prefix operator attached to its operand
+			expr += " " + next.buffer
+			if operand := c.nextChunk(); operand != nil {
+				if operand.Type == Group && operand.buffer == "(" {
+					depth++
+				}
+				expr += operand.buffer
+			}
 		default:
 			expr += " " + next.buffer
 		}
